@@ -22,10 +22,10 @@ SOURCES = ["mls-rs-codec/src/varint.rs", "mls-rs-codec/src/iter.rs", "mls-rs-cod
 def run(ctx):
     def extra(r, kv):
         return {"input_kinds": kv.get("inputs", ""), "outcomes": kv.get("outcomes", ""), "produced_values": kv.get("produced_values", ""),
-                "modelled_types": kv.get("modelled_types", ""), "schema_types_without_probe": kv.get("schema_types_without_probe", ""),
+                "modelled_types": kv.get("modelled_types", ""), "codec_model_rows": kv.get("codec_model_rows", ""), "schema_types_without_probe": kv.get("schema_types_without_probe", ""),
                 "max_alloc_per_input_byte": kv.get("max_alloc_per_input_byte", ""), "low_acceptance_types": kv.get("low_acceptance_types", "")}
     return generic.standard(
-        ctx, ["MlsVerif.Props.C12", "MlsVerif.Props.C12Custom", "MlsVerif.Props.C12Gen"], ["c12"], "c12", "c12", SOURCES,
+        ctx, ["MlsVerif.Props.C12", "MlsVerif.Props.C12Custom", "MlsVerif.Props.C12Gen", "MlsVerif.Props.C12GenCodecs"], ["c12"], "c12", "c12", SOURCES,
         rule="per decodable generated type (73 of ~100; the rest are encode-only inputs of hashes/signatures): 220 (thorough 3000) inputs = 40% valid "
              "(schema-directed generator with boundary lengths 0/63/64/16383/16384, for the test types the real encoder on random values), 50% "
              "mutated (truncate, bit flip, special byte, insert, delete, non-minimal varint, oversized length, invalid varint prefix, junk tail, "
@@ -34,9 +34,11 @@ def run(ctx):
         what_corr="the implementation decodes / sizes / re-encodes a byte string differently from the generated schema under the codec model",
         what_oracle="a decode panicked, reported a wrong length, accepted non-canonical bytes for a wire type, a produced value did not round-trip, "
                     "or the decoder allocated beyond 4096 x input + 256 KiB",
-        assumptions=["schemas are extracted from the Rust item definitions by tools/translate_schemas.py (trusted extractor; validated by the rows: a wrong "
-                     "extraction shows up as a differing row); types with hand-written codecs are modelled by hand (Model/CodecCustom) and tied only through "
-                     "the direct oracle, except LeafIndex and ExtensionList whose refined decoders are compared row by row",
+        assumptions=["schemas and codec records are extracted from the Rust item definitions by tools/translate_schemas.py (trusted extractor; validated by the rows: a wrong "
+                     "extraction shows up as a differing row); the hand-written codecs (Proposal, Credential, PublicMessage, auth data, ratchet history, LeafIndex, ExtensionList) are "
+                     "modelled by hand (Model/CodecCustom), composed with the derived ones by the translator (Gen/Codecs) and compared row by row (`decc`) on real and mutated "
+                     "MlsMessage / PublicMessage / KeyPackage / GroupInfo / exported tree / snapshot / prior-epoch / commit-secrets values; for state types holding hash maps the "
+                     "same-byte-order field is not compared",
                      "memory: the theorem bounds the abstract weight of the decoded value; the oracle measures real heap use"],
         extra_cov=extra, nontrivial=lambda r, kv: r["rows"])
 
